@@ -51,3 +51,51 @@ Example C07_premises_inhabited :
             {| e_cls := lit "L"; e_field := Some (lit "items"); e_index := Some 2; e_any := false |} ]
        (chain ex_root [ {| ti_node := ex_leaf 6 "L"; ti_parent := ex_root; ti_field := lit "items"; ti_index := Some 2 |} ]).
 Proof. exact c07_inhabited. Qed.
+
+(* ---------------------------------------------------------------------------------------------------------------
+   The documented meaning at the level of the xpath's STEPS (Spec/StepSem.v, written from the property text, without
+   the transformer's reversed element list and `anywhere` flags): [view x] reads the parse as absolute? + steps
+   (preceded-by-"//", class?, field?, index?); [step_sem ct sp chain] = there is an assignment js of the steps to
+   strictly increasing chain positions, each step satisfied by its position (ssat: instance of the class if given,
+   stored in the field / at the index if given - the root has neither), a step directly below the previous one
+   unless preceded by "//", the first step on the root when the path is absolute and starts with a single "/", the
+   last step on the node itself. *)
+From Oak Require Import Spec.StepSem Proofs.StepSemProofs.
+
+(* XPathTransformer (to_elements: reversal, anywhere flags, "//" in front of relative paths) is correct: the two-rule
+   relation R over its element list is exactly the step-level meaning, for every xpath that compiles, on every chain *)
+Theorem C07_steps_sem : forall ct x els, to_elements x = Some els ->
+  forall ch, ch <> [] -> (R ct els ch <-> step_sem ct (view x) ch).
+Proof. exact steps_sem. Qed.
+(* what the transformer produces: one element per step, e_any = preceded by "//" (first one: or a relative path) *)
+Theorem C07_to_elements_steps : forall x els, to_elements x = Some els -> els = compile (view x).
+Proof. exact to_elements_view. Qed.
+
+(* C07_match_sem / C07_findall_sem / C07_findall_match restated against step_sem, for every well-formed xpath *)
+Theorem C07_match_steps : forall ct root x els l n,
+  wf_node ct root = true -> nodup_tree root -> well_formed x = true -> to_elements x = Some els -> path root l n ->
+  exists b, xmatch ct root els n = Some (Ok b) /\ (b = true <-> step_sem ct (view x) (chain root l)).
+Proof. exact xmatch_steps. Qed.
+Theorem C07_findall_steps : forall ct root x els,
+  wf_node ct root = true -> nodup_tree root -> well_formed x = true -> to_elements x = Some els ->
+  exists res, findall ct root els = Some res /\ (forall n, In n res <-> step_sem_node ct (view x) root n)
+              /\ NoDup (map addr res).
+Proof. exact findall_steps. Qed.
+Theorem C07_findall_match_steps : forall ct root x els,
+  wf_node ct root = true -> nodup_tree root -> well_formed x = true -> to_elements x = Some els ->
+  exists res, findall ct root els = Some res /\ NoDup (map addr res) /\
+    forall l n, path root l n ->
+      (In n res <-> xmatch ct root els n = Some (Ok true)) /\
+      (xmatch ct root els n = Some (Ok true) <-> step_sem ct (view x) (chain root l)).
+Proof. exact findall_match_steps. Qed.
+
+(* premises inhabited: "//P/@items[2]L" compiles, and its step-level meaning holds of node 6 of the example tree;
+   "/@child P" is well-formed and does not match the root (the root satisfies no field constraint) *)
+Example C07_steps_premises_inhabited :
+  well_formed ex_xp1 = true /\
+  to_elements ex_xp1 = Some [ {| e_cls := lit "P"; e_field := None; e_index := None; e_any := true |};
+                              {| e_cls := lit "L"; e_field := Some (lit "items"); e_index := Some 2; e_any := false |} ] /\
+  path ex_root [ex_ti6] (ex_leaf 6 "L") /\
+  step_sem ex_ct (view ex_xp1) (chain ex_root [ex_ti6]) /\
+  well_formed ex_xp2 = true /\ ~ step_sem ex_ct (view ex_xp2) (chain ex_root []).
+Proof. exact c07_steps_inhabited. Qed.
